@@ -14,6 +14,10 @@ literal('Sensor.__init__', '{}', 'dict[any,list[any]]')
 literal('Sensor.initialize', '{}', 'dict[any,list[any]]')
 literal('Cms.__init__', '[]', 'list[ref:Sensor]')
 
+SYSTEM_EXISTS = ('System._instance is not None and alive(System._instance) and '
+                 'System._instance._assets is not None and alive(System._instance._assets) and '
+                 'not System._instance._simulation_is_initialized')
+
 extern('Probe.probe', result='any', pure=True, params=[],
        note='a measurement: user supplied get_data(target), copied; does not touch the sensor')
 
@@ -27,6 +31,7 @@ invariant('Sensor', 'capacity_at_least_one', 'self._data_capacity >= 1')
 invariant('Sensor', 'has_probes', 'len(self._probes) > 0 and all(p is not None and alive(p) for p in self._probes)')
 invariant('Sensor', 'probes_distinct',
           'all(self._probes[i] is not self._probes[j] for i in range(len(self._probes)) for j in range(i + 1, len(self._probes)))')
+invariant('Sensor', 'callbacks_callable', 'all(c is not None for c in self._on_sense)')
 invariant('Sensor', 'every_probe_has_a_series', 'all(p in self.data for p in self._probes)')
 invariant('Sensor', 'series_are_lists_of_their_own',
           'all(self.data[q] is not None and alive(self.data[q]) and self.data[q] is not self._probes and '
@@ -45,44 +50,47 @@ specfn('overflows', ['s'], 'series_len(s) + 1 > s._data_capacity')
 SERIES = 'self.data[self._probes[j]]'
 FAMILY = 'self.data[*][]'          # every per-probe series (the lists that are values of self.data)
 
+OTHER_UNTOUCHED = ('all(implies(all(q != p for p in self._probes), len(self.data[q]) == old(len(self.data[q])) and '
+                   '            all(self.data[q][i] == old(self.data[q][i]) for i in range(len(self.data[q])))) for q in self.data)')
 # effect of one measurement on the stored series, relative to the state at function entry
 COLLECT_POST = {
     'one_probe_call_per_probe_in_probe_order':
         'trace_len() >= old(trace_len()) + len(self._probes) and '
         'all(trace_kind(old(trace_len()) + j) == fn_id("probe") and '
         '    trace_recv(old(trace_len()) + j) is self._probes[j] for j in range(len(self._probes)))',
-    'last_sense_is_a_new_list_of_the_values_in_probe_order':
-        'fresh(self._last_sense) and len(self._last_sense) == len(self._probes) and g_ok',
+    'last_sense_is_a_new_list_of_the_probe_results_in_probe_order':
+        'fresh(self._last_sense) and len(self._last_sense) == len(self._probes) and '
+        'all(self._last_sense[j] == trace_resr(old(trace_len()) + j) for j in range(len(self._probes)))',
     'new_value_at_the_back_of_every_series':
         f'all(len({SERIES}) == ite(old(overflows(self)), old(series_len(self)), old(series_len(self)) + 1) and '
         f'    {SERIES}[len({SERIES}) - 1] == self._last_sense[j] for j in range(len(self._probes)))',
     'earlier_values_kept_in_order_oldest_dropped_beyond_capacity':
         f'all({SERIES}[i] == old({SERIES}[i + ite(overflows(self), 1, 0)]) '
         f'    for j in range(len(self._probes)) for i in range(len({SERIES}) - 1))',
+    'series_under_other_keys_untouched':
+        OTHER_UNTOUCHED,
     'probes_and_callbacks_untouched':
         'self._probes is old(self._probes) and seq(self._probes) == old(seq(self._probes)) and '
         'self._on_sense is old(self._on_sense) and seq(self._on_sense) == old(seq(self._on_sense)) and '
         'self.data is old(self.data) and dmap(self.data) == old(dmap(self.data))',
 }
-# g_v: the value returned by the probe call of this iteration; g_ok: every stored value is that value
-ghost_after('Sensor._collect_data', '<entry>', g_ok='True')
-ghost_after('Sensor._collect_data', 'new_data = p.probe()', g_v='new_data',
-            g_ok='g_ok and trace_kind(trace_len() - 1) == fn_id("probe") and trace_recv(trace_len() - 1) is p')
-ghost_after('Sensor._collect_data', 'self._last_sense.append(new_data)',
-            g_ok='g_ok and self._last_sense[-1] == g_v and self.data[p][-1] == g_v')
-
-contract('Sensor._collect_data', props=['C19'], args={},
-         ensures=dict(COLLECT_POST, exactly_the_probe_calls='trace_len() == old(trace_len()) + len(self._probes)'),
+# used as a contract by sense (modular): the class invariants are explicit pre- and postconditions
+contract('Sensor._collect_data', props=['C19'], for_cls=['Sensor', 'PeriodicSensor', 'OutputPartSensor'], args={},
+         modular=True, invariants=False, requires=S_INVS,
+         ensures=dict(S_INVS, **dict(COLLECT_POST,
+                                     exactly_the_probe_calls='trace_len() == old(trace_len()) + len(self._probes)')),
          modifies=['self._last_sense', FAMILY, '$trace'])
 S_STRUCT = {n: t for n, t in S_INVS.items() if 'aligned' not in n}
 loop('Sensor._collect_data', 1, 'for p in self._probes',
      dict(S_STRUCT,
-          values_so_far='fresh(self._last_sense) and len(self._last_sense) == k and g_ok',
+          values_so_far='fresh(self._last_sense) and len(self._last_sense) == k and '
+                        'all(self._last_sense[j] == trace_resr(old(trace_len()) + j) for j in range(k))',
           measured_series_one_longer=
               f'all(len({SERIES}) == old(series_len(self)) + ite(j < k, 1, 0) for j in range(len(self._probes))) and '
               f'all({SERIES}[old(series_len(self))] == self._last_sense[j] for j in range(k))',
           earlier_values_kept=
               f'all({SERIES}[i] == old({SERIES}[i]) for j in range(len(self._probes)) for i in range(old(series_len(self))))',
+          others=OTHER_UNTOUCHED,
           probe_calls='trace_len() == old(trace_len()) + k and '
                       'all(trace_kind(old(trace_len()) + j) == fn_id("probe") and '
                       '    trace_recv(old(trace_len()) + j) is self._probes[j] for j in range(k))'),
@@ -92,10 +100,49 @@ loop('Sensor._collect_data', 2, 'for p in self._probes',
           trimmed_prefix=
               f'all(len({SERIES}) == old(series_len(self)) + ite(j < k, 0, 1) and '
               f'    {SERIES}[len({SERIES}) - 1] == self._last_sense[j] for j in range(len(self._probes)))',
+          others=OTHER_UNTOUCHED,
           shifted_by_one=
               f'all({SERIES}[i] == old({SERIES}[i + ite(j < k, 1, 0)]) '
               f'    for j in range(len(self._probes)) for i in range(len({SERIES}) - 1))'),
      modifies=[FAMILY], index='k')
+
+
+# --------------------------------------------------------------------------- sense: collect, then the callbacks
+# What an on-sense callback (e.g. Cms.on_sense of a user subclass) may do to the sensor that is calling it: read it.
+SENSOR_FIELDS = ['self._env', 'self._env._now', 'self._name', 'self._value', 'self._initial_value', 'self._value_history',
+                 'self._value_history[]', 'self._data_capacity', 'self._on_sense', 'self._on_sense[]', 'self._last_sense',
+                 'self._last_sense[]', 'self._probes', 'self._probes[]', 'self.data', 'self.data[]']
+SERIES_PROTECTED = {'stored_series_not_edited':
+                        'all(len(self.data[q]) == old(len(self.data[q])) and '
+                        '    all(self.data[q][i] == old(self.data[q][i]) for i in range(len(self.data[q]))) for q in self.data)'}
+RELY_NOTE = ('A4: an on-sense callback reads the sensor (data, last_sense) but does not edit its stored series, does not '
+             'register further callbacks on it while it is sensing and does not touch its private fields')
+rely('Sensor', protect=SENSOR_FIELDS, before=S_INVS, after=dict(S_INVS, **SERIES_PROTECTED), note=RELY_NOTE)
+
+N_P, N_C = 'len(self._probes)', 'len(self._on_sense)'
+SENSE_POST = dict(COLLECT_POST, **{
+    'every_callback_exactly_once_in_registration_order_with_sensor_time_and_values':
+        f'trace_len() == old(trace_len()) + {N_P} + {N_C} and '
+        f'all(trace_kind(old(trace_len()) + {N_P} + j) == 0 and '
+        f'    trace_fn(old(trace_len()) + {N_P} + j) == self._on_sense[j] and '
+        f'    trace_ref(old(trace_len()) + {N_P} + j, 0) is self and '
+        f'    trace_real(old(trace_len()) + {N_P} + j, 0) == self._env._now and '
+        f'    trace_ref(old(trace_len()) + {N_P} + j, 1) is self._last_sense for j in range({N_C}))',
+    'clock_untouched': 'self._env is old(self._env) and self._env._now == old(self._env._now)',
+})
+contract('Sensor.sense', props=['C19'], for_cls=['Sensor', 'PeriodicSensor', 'OutputPartSensor'], args={},
+         requires={'initialised': 'self._env is not None and alive(self._env)'},
+         ensures=SENSE_POST)
+loop('Sensor.sense', 1, 'for c in self._on_sense',
+     dict(S_INVS,
+          callbacks_so_far=
+              'trace_len() == at_loop_entry(trace_len()) + k and '
+              'all(trace_kind(at_loop_entry(trace_len()) + j) == 0 and '
+              '    trace_fn(at_loop_entry(trace_len()) + j) == self._on_sense[j] and '
+              '    trace_ref(at_loop_entry(trace_len()) + j, 0) is self and '
+              '    trace_real(at_loop_entry(trace_len()) + j, 0) == self._env._now and '
+              '    trace_ref(at_loop_entry(trace_len()) + j, 1) is self._last_sense for j in range(k))'),
+     modifies=['$trace'], index='k')
 
 
 # --------------------------------------------------------------------------- registration of callbacks
@@ -107,6 +154,164 @@ contract('Sensor.add_on_sense_callback', props=['C19'], args={'callback': 'clo'}
                       'all(self._on_sense[j] == old(self._on_sense[j]) for j in range(old(len(self._on_sense))))',
                   'nothing_called': 'trace_len() == old(trace_len())'},
          modifies=['self._on_sense[]'])
+
+# --------------------------------------------------------------------------- Sensor: start of a run, construction
+INIT_RAISES = {'AssertionError': ('env is not None and self._env is not None', {'second_initialisation_changes_nothing': '@frame:'}),
+               'TypeError': ('env is None', {'bad_env_changes_nothing': '@frame:'})}
+FRESH_TABLE = {
+    'one_fresh_series_per_probe_in_probe_order':
+        'fresh(self.data) and len(self.data) == k and all(keys(self.data)[j] == self._probes[j] for j in range(k)) and '
+        'all(self._probes[j] in self.data for j in range(k)) and '
+        'all(any(q == self._probes[j] for j in range(k)) for q in self.data)',
+    'series_fresh_and_empty':
+        'all(fresh(self.data[q]) and len(self.data[q]) == 0 and self.data[q] is not self._last_sense and '
+        '    self.data[q] is not self._on_sense and self.data[q] is not self._value_history for q in self.data)',
+    'series_are_separate_lists': S_INVS['series_are_separate_lists'],
+}
+STARTS_EMPTY = {'one_empty_series_per_probe':
+                    'all(p in self.data and len(self.data[p]) == 0 for p in self._probes) and len(self._last_sense) == 0'}
+ONLY_PROBE_SERIES = {'no_other_series': 'len(self.data) == len(self._probes)'}
+contract('Sensor.initialize', props=['C19', 'C20'], args={'env': 'ref:Environment'},
+         raises=INIT_RAISES,
+         ensures=dict(STARTS_EMPTY, **ONLY_PROBE_SERIES, remembers_env='self._env is env',
+                      callbacks_and_probes_survive='seq(self._on_sense) == old(seq(self._on_sense)) and '
+                                                   'self._probes is old(self._probes)'),
+         modifies=['self._env', 'self._value', 'self._value_history', 'self._last_sense', 'self.data'])
+loop('Sensor.initialize', 1, 'for p in self._probes', FRESH_TABLE, modifies=['self.data[]'], index='k')
+
+SENSOR_INIT_PRE = {
+    'system_exists': SYSTEM_EXISTS,
+    'probes_given_once_each':
+        'probes is not None and alive(probes) and probes is not System._instance._assets and '
+        'all(p is not None and alive(p) for p in probes) and '
+        'all(probes[i] is not probes[j] for i in range(len(probes)) for j in range(i + 1, len(probes)))'}
+contract('Sensor.__init__', props=['C19'], invariants='prove_only', fresh_self=True,
+         args={'probes': 'list[ref:Probe]', 'name': 'str', 'data_capacity': 'ext', 'value': 'real'},
+         requires=SENSOR_INIT_PRE,
+         raises={'AssertionError': ('data_capacity < 1 or len(probes) == 0', {})},
+         ensures=dict(STARTS_EMPTY, **ONLY_PROBE_SERIES, uses_the_given_probes_and_capacity=
+                      'self._probes is probes and self._data_capacity == data_capacity and len(self._on_sense) == 0'))
+loop('Sensor.__init__', 1, 'for p in self._probes',
+     dict(FRESH_TABLE, own_lists='self._probes is probes and fresh(self._on_sense) and fresh(self._last_sense) and '
+                                 'fresh(self._value_history) and self._on_sense is not self._last_sense and '
+                                 'self._value_history is not self._last_sense and self._value_history is not self._on_sense'),
+     modifies=['self.data[]'], index='k')
+
+
+# --------------------------------------------------------------------------- PeriodicSensor
+invariant('PeriodicSensor', 'interval_nonneg', 'self._interval >= 0')
+invariant('PeriodicSensor', 'time_series_exists_once_initialised',
+          'all(p != "time" for p in self._probes) and implies(self._env is not None, "time" in self.data)')
+PS_INVS = {n: t for n, t, s in SPECS.invariants['PeriodicSensor']}
+rely('PeriodicSensor', protect=SENSOR_FIELDS + ['self._interval'], before=dict(S_INVS, **PS_INVS),
+     after=dict(S_INVS, **dict(PS_INVS, **SERIES_PROTECTED)), note=RELY_NOTE)
+
+# the SENSOR event (EventType.SENSOR == 4) that carries the next measurement of this sensor
+specfn('next_sense_event', ['s', 'i', 'when'],
+       'trace_kind(i) == fn_id("schedule_event") and trace_recv(i) is s._env and trace_real(i, 0) == when and '
+       'trace_real(i, 1) == s._id and trace_real(i, 2) == 4 and trace_fn(i) == method(s, "_periodic_sense")')
+contract('PeriodicSensor._schedule_next_sense', props=['C19'], args={}, modular=True,
+         requires={'initialised': 'self._env is not None and alive(self._env)', 'interval_nonneg': 'self._interval >= 0'},
+         ensures={'exactly_one_sensor_event_one_interval_from_now':
+                      'trace_len() == old(trace_len()) + 1 and '
+                      'next_sense_event(self, old(trace_len()), self._env._now + self._interval)'},
+         modifies=['$trace'])
+
+contract('PeriodicSensor.initialize', props=['C19', 'C20'], args={'env': 'ref:Environment'},
+         requires={'env_alive': 'env is None or alive(env)'},
+         raises=INIT_RAISES,
+         ensures=dict(STARTS_EMPTY,
+                      empty_time_series_next_to_the_probe_series=
+                      '"time" in self.data and len(self.data["time"]) == 0 and len(self.data) == len(self._probes) + 1',
+                      first_measurement_exactly_one_interval_after_the_start=
+                      'self._env is env and trace_len() == old(trace_len()) + 1 and '
+                      'next_sense_event(self, old(trace_len()), env._now + self._interval)'),
+         modifies=['self._env', 'self._value', 'self._value_history', 'self._last_sense', 'self.data', '$trace'])
+
+# alignment of the time series with the per-probe series: same length, hence also trimmed to the capacity
+TIME_ALIGNED = 'len(self.data["time"]) == series_len(self) and len(self.data["time"]) <= self._data_capacity'
+contract('PeriodicSensor._periodic_sense', props=['C19'], args={},
+         requires={'initialised': 'self._env is not None and alive(self._env)',
+                   'time_series_aligned_with_probe_series': TIME_ALIGNED},
+         ensures=dict({n: t for n, t in SENSE_POST.items() if n != 'series_under_other_keys_untouched'}, **{
+             'every_callback_exactly_once_in_registration_order_with_sensor_time_and_values':
+                 SENSE_POST['every_callback_exactly_once_in_registration_order_with_sensor_time_and_values']
+                 .replace(f'trace_len() == old(trace_len()) + {N_P} + {N_C} and ', ''),
+             'measurement_time_recorded_at_the_back':
+                 'len(self.data["time"]) > 0 and self.data["time"][len(self.data["time"]) - 1] == self._env._now',
+             'time_series_stays_aligned_and_within_capacity': TIME_ALIGNED,
+             'earlier_times_kept_in_order_oldest_dropped_beyond_capacity':
+                 'all(self.data["time"][i] == old(self.data["time"][i + ite(overflows(self), 1, 0)]) '
+                 '    for i in range(len(self.data["time"]) - 1))',
+             'exactly_one_next_measurement_one_interval_later':
+                 f'trace_len() == old(trace_len()) + {N_P} + {N_C} + 1 and '
+                 'next_sense_event(self, trace_len() - 1, self._env._now + self._interval)',
+         }))
+
+
+# --------------------------------------------------------------------------- OutputPartSensor
+extern('PartProcessor.add_finish_processing_callback', pure=True, always=True, params=['callback'],
+       note='registers the callback with the processor (called with (processor, part) for every finished part)')
+invariant('OutputPartSensor', 'C19/skip_counter_within_interval',
+          '0 <= self._counter and self._counter <= self._probing_interval')
+OPS_INVS = {n: t for n, t, s in SPECS.invariants['OutputPartSensor']}
+rely('OutputPartSensor', protect=SENSOR_FIELDS + ['self._part_processor', 'self._probing_interval', 'self._counter'],
+     before=S_INVS, after=dict(S_INVS, **dict(OPS_INVS, **SERIES_PROTECTED)), note=RELY_NOTE)
+
+# g_aimed: at the moment of the measurement every probe looks at the finished part
+ghost_after('OutputPartSensor._probe_part', '<entry>', g_aimed='False')
+ghost_before('OutputPartSensor._probe_part', 'self.sense()', g_aimed='all(p.target == part for p in self._probes)')
+contract('OutputPartSensor._probe_part', props=['C19'], args={'part_processor': 'ref:PartProcessor', 'part': 'ref:Part'},
+         requires={'initialised': 'self._env is not None and alive(self._env)'},
+         ensures={
+             'counter_automaton':
+                 'self._counter == ite(old(self._counter) == 0, self._probing_interval, old(self._counter) - 1)',
+             'measures_iff_no_parts_left_to_skip':
+                 f'trace_len() == old(trace_len()) + ite(old(self._counter) == 0, {N_P} + {N_C}, 0)',
+             'skipped_part_changes_no_series':
+                 'implies(old(self._counter) != 0, self._last_sense is old(self._last_sense) and '
+                 '        all(len(self.data[q]) == old(len(self.data[q])) for q in self.data))',
+             'measurement_probes_the_finished_part_then_senses_once':
+                 'implies(old(self._counter) == 0, g_aimed and '
+                 + ' and '.join(f'({SENSE_POST[n]})' for n in
+                                ('one_probe_call_per_probe_in_probe_order',
+                                 'last_sense_is_a_new_list_of_the_probe_results_in_probe_order',
+                                 'new_value_at_the_back_of_every_series',
+                                 'every_callback_exactly_once_in_registration_order_with_sensor_time_and_values')) + ')',
+         })
+loop('OutputPartSensor._probe_part', 1, 'for p in self._probes',
+     {'aimed_so_far': 'all(self._probes[j].target == part for j in range(k))'}, modifies=['*.target'], index='k')
+
+contract('OutputPartSensor.initialize', props=['C19', 'C20'], args={'env': 'ref:Environment'},
+         requires={'processor_exists': 'self._part_processor is not None and alive(self._part_processor)'},
+         # the hook is registered before the environment is checked: a failed initialize(None) leaves it registered
+         raises=dict(INIT_RAISES, TypeError=('env is None', {'bad_env_changes_only_the_hook_registration': '@frame:$trace'})),
+         ensures=dict(STARTS_EMPTY, **ONLY_PROBE_SERIES,
+                      first_finished_part_will_be_measured='self._counter == 0 and self._env is env',
+                      hook_added_exactly_once_on_the_first_initialisation=
+                      'trace_len() == old(trace_len()) + 1 and '
+                      'trace_kind(old(trace_len())) == fn_id("add_finish_processing_callback") and '
+                      'trace_recv(old(trace_len())) is self._part_processor and '
+                      'trace_fn(old(trace_len())) == method(self, "_probe_part")'),
+         modifies=['self._env', 'self._value', 'self._value_history', 'self._last_sense', 'self.data', 'self._counter',
+                   '$trace'])
+
+contract('PeriodicSensor.__init__', props=['C19'], invariants='prove_only', fresh_self=True,
+         args={'interval': 'real', 'probes': 'list[ref:Probe]', 'name': 'str', 'data_capacity': 'ext', 'value': 'real'},
+         requires=dict(SENSOR_INIT_PRE, interval_nonneg='interval >= 0', no_probe_is_the_time_key='all(p != "time" for p in probes)'),
+         raises={'AssertionError': ('data_capacity < 1 or len(probes) == 0', {})},
+         ensures=dict(STARTS_EMPTY, **ONLY_PROBE_SERIES, keeps_interval='self._interval == interval and self._env is None'))
+contract('OutputPartSensor.__init__', props=['C19'], invariants='prove_only', fresh_self=True,
+         args={'part_processor': 'ref:PartProcessor', 'part_probes': 'list[ref:Probe]', 'sensing_interval': 'int',
+               'name': 'str', 'data_capacity': 'ext', 'value': 'real'},
+         requires={'system_exists': SYSTEM_EXISTS,
+                   'probes_given_once_each': SENSOR_INIT_PRE['probes_given_once_each'].replace('probes', 'part_probes')},
+         raises={'AssertionError': ('data_capacity < 1 or len(part_probes) == 0 or sensing_interval < 0', {}),
+                 'TypeError': ('part_processor is None', {})},
+         ensures=dict(STARTS_EMPTY, **ONLY_PROBE_SERIES,
+                      first_part_is_measured='self._counter == 0 and self._probing_interval == sensing_interval and '
+                                             'self._part_processor is part_processor and self._env is None'))
+
 
 # --------------------------------------------------------------------------- Cms
 extern('Sensor.add_on_sense_callback', pure=True, always=True, params=['callback'],
@@ -133,10 +338,26 @@ contract('Cms.add_sensor', props=['C19'], args={'sensor': 'ref:Sensor'},
          modifies=['self._sensors[]', '$trace'])
 contract('Cms.on_sense', props=['C19'], args={'sensor': 'ref:Sensor', 'time': 'real', 'data': 'list[any]'},
          ensures={'base_class_hook_does_nothing': 'trace_len() == old(trace_len())'}, modifies=[])
-SYSTEM_EXISTS = ('System._instance is not None and alive(System._instance) and '
-                 'System._instance._assets is not None and alive(System._instance._assets) and '
-                 'not System._instance._simulation_is_initialized')
 contract('Cms.__init__', props=['C19'], invariants='prove_only', fresh_self=True,
          args={'maintainer': 'any', 'name': 'str', 'value': 'real'},
          requires={'system_exists': SYSTEM_EXISTS},
          ensures={'starts_without_sensors': 'len(self._sensors) == 0 and self.maintainer == maintainer'})
+
+# --------------------------------------------------------------------------- Probe
+# Probe.probe: the stored value is a copy (copy.copy, uninterpreted copy_of) of what the measurement function returned
+# for the probe's target at that moment.  Callers (Sensor._collect_data) keep using the extern 'Probe.probe' above.
+# AttributeProbe resolves self._get_data to its own method (getattr(target, name, None)), kept as an extern; a subclass
+# that overrides probe() itself is verified against this contract (behavioural subtyping).
+for c_ in ('Probe', 'AttributeProbe'):
+    rely(c_, protect=['self._get_data', 'self.target'],
+         note='A4: a measurement function reads its target; it does not re-target or re-wire the probe')
+extern('AttributeProbe._get_data', result='any', pure=True, even_self=True, params=['target'],
+       note='getattr(target, attribute_name, None): reads one attribute of the target')
+contract('Probe.probe', props=['C19'], for_cls=['Probe', 'AttributeProbe'], args={}, result='any', invariants=False,
+         requires={'measurement_function_present': 'self._get_data is not None'},
+         ensures={'returns_a_copy_of_what_was_measured_on_the_target_now':
+                      'trace_len() == old(trace_len()) + 1 and trace_ref(old(trace_len()), 0) == self.target and '
+                      'result == copy_of(trace_resr(old(trace_len())))'})
+contract('Probe.__init__', props=['C19'], args={'get_data': 'clo', 'target': 'any'}, invariants=False,
+         raises={'TypeError': ('get_data is None', {})},
+         ensures={'fields_as_given': 'self._get_data == get_data and self.target == target'})
